@@ -156,11 +156,51 @@ def keep_cont(S, r, tier):
 
 
 PROFILES = {}
+_COMMON = (" Seeded exploration (deterministic simulation with fault injection): the real engine is run on tens of thousands of generated "
+           "networks, sample tapes, tie-break schedules and pause/re-use plans per batch; clauses are evaluated after every executed event "
+           "and over the recorded history; a failure is minimised to a replay file that reproduces it exactly. A clean batch is evidence, not proof.")
 LEVEL_TEXT = {
-    "*": "seeded exploration: the real engine is run on tens of thousands of generated networks, tapes and tie-break "
-         "schedules per batch; the property's clauses are evaluated after every executed event and over the recorded "
-         "history; any failure is minimised to a replay file. Right level because the property quantifies over all "
-         "configurations/schedules of an unbounded space: sampling with strong per-event oracles is what is decidable here.",
+    "*": "Per-event invariants and history oracles." + _COMMON,
+    "C01": "After every event: each id 1..N in exactly one node list or the exit, counters equal lists, exit append-only, and a shadow location map "
+           "driven only by accept/release/renege micro-events agrees; reference-model refinement on the tie-free core." + _COMMON,
+    "C02": "Before every event clock == event date and clock non-decreasing; after every event no node/stream/renege/class-change date in the past; "
+           "every record checked for its ordering and exact arithmetic as it is written." + _COMMON,
+    "C03": "Every customer's records parsed as a journey grammar (visits = interruptions* + one terminal record; node/arrival-date chaining; "
+           "location = last destination; records vs announced departures); reference-model refinement." + _COMMON,
+    "C04": "Server/customer bijection, on-duty count == c, no attach to a busy server (shadow occupancy from attach/detach), server stays until its "
+           "customer leaves or is interrupted, per-server record intervals disjoint, utilisation recomputed from attach/detach times (also across pauses)." + _COMMON,
+    "C05": "After every event no on-duty server idle while a customer waits or is interrupted (all capacity/demand changes happen inside events); "
+           "reference-model refinement of every service start date." + _COMMON,
+    "C06": "Population bounds after every event and a sequential admission oracle for every arrival event (batch members one by one: rejected iff "
+           "node or system full at its turn, record shows the population seen); reference-model refinement." + _COMMON,
+    "C07": "At the instant of every blocking/unblocking micro-event: blocked only if destination full, released in the harness's own FIFO order of "
+           "blocking (cascades included), never left blocked with space, holds its server, time_blocked == span block->release; reference-model refinement." + _COMMON,
+    "C08": "At the instant of every discipline decision (public seam): chosen customer waits, belongs to the best priority line, and is first/last "
+           "of the harness's own per-priority shadow line (FIFO/LIFO); every service start justified by a decision; reference-model refinement." + _COMMON,
+    "C09": "Every transition checked against the routing spec of the customer's class (probability > 0, Direct/Leave/Cycle exact, JSQ/LB minimal on the "
+           "pre-event state, process routes in order), class changes against the matrix, priority line == class priority; boundary draws injected; reference model." + _COMMON,
+    "C10": "Tape audit: arrivals exactly at the running sums of the stream's samples, batch sizes honoured, every service end == start + its sample "
+           "(draws consumed in order, none unused), no due arrival skipped; F5: a planted invalid sample must raise at that draw; reference model." + _COMMON,
+    "C11": "No priority inversion after every event; victim rule at the instant of every pre-emption; resume/restart/resample bookkeeping by a "
+           "sequential walk over each customer's records consuming its service-time draws." + _COMMON,
+    "C12": "Independent cyclic timetable function: on-duty count after every event, shift/slot events exactly at timetable dates and none missed, "
+           "no start on off-duty servers, overtime and interruption rules at every shift end, interrupted-before-fresh restart order, slot sizes." + _COMMON,
+    "C13": "Patience tracked per visit: renege exactly at arrival + patience, only while waiting and never after service started, nobody waits beyond "
+           "patience, jockey destination; baulking function gets the true population and the outcome equals (draw < p) incl. boundary draws." + _COMMON,
+    "C14": "No engine exception/hang on any generated valid network; at return every due event executed and none at/after the horizon; count methods "
+           "recomputed independently." + _COMMON,
+    "C15": "Operation histories over Ciw's own seeding (real ciw.seed, real distributions): prelude of other simulations, then repeat / re-use Network / "
+           "two interleaved simulations / fresh interpreter under another PYTHONHASHSEED; digests of records, clock and tracker history must agree." + _COMMON,
+    "C16": "Differential: the same spec run in one call and split at 1-5 points (with other Simulations built from the same Network in between); "
+           "records and clock bit-identical, server statistics equal to 1e-9; tie runs discarded as out of domain." + _COMMON,
+    "C17": "After every event hash_state() == state recomputed from the configuration (all seven trackers, MatrixBlocking from the harness's own "
+           "blocking order); history == compressed true timeline; state_probabilities over random windows == exact time shares." + _COMMON,
+    "C18": "Independent greatest-fixed-point deadlock oracle after every event of simulate_until_deadlock: sound (true at return), complete (never true "
+           "before another event is executed), times_to_deadlock recomputed exactly." + _COMMON,
+    "C19": "Sharers == FCFS prefix of min(population, capacity) after every event; work integral of min(1, R/k) over the harness's own population "
+           "timeline == sampled requirement for every completed service; metamorphic PS(inf,R=1) vs FIFO/1 emptying instants." + _COMMON,
+    "C20": "Every record field a Decimal; dates == exact rational sums of samples / timetable dates (3-decimal lattice); exact run vs floating-point twin "
+           "within 10^-(k-3) on tie-free tapes; dirty decimal context from earlier runs in the process." + _COMMON,
 }
 
 
